@@ -23,6 +23,8 @@ use std::{
 };
 use tokio::sync::broadcast;
 
+pub const DELIBERATE_HANDLER_PANIC: &str = "deliberate panic in the application's handler (scenario handler-panic)";
+
 pub fn digest(bytes: &[u8]) -> String {
     let d = ring::digest::digest(&ring::digest::SHA256, bytes);
     hex::encode(&d.as_ref()[..8])
@@ -160,6 +162,7 @@ impl tower::Service<Request<Bytes>> for AppService {
         let resp_len = header_u64(&req, "resp-len");
         let status = header_u64(&req, "status").unwrap_or(200) as u16;
         let hold = req.headers().contains_key("hold");
+        let panics = req.headers().contains_key("panic");
         let block_ms = header_u64(&req, "block-ms").unwrap_or(0);
         let peer_seen = req.peer_id().map(|p| run.node_of(p));
         let origin_seen = req
@@ -208,6 +211,10 @@ impl tower::Service<Request<Bytes>> for AppService {
             if block_ms > 0 {
                 // a handler that does not yield (blocking / CPU-bound section); real-thread modes only
                 std::thread::sleep(Duration::from_millis(block_ms));
+            }
+            if panics {
+                // an application bug: the handler of this one request panics
+                panic!("{}", DELIBERATE_HANDLER_PANIC);
             }
             if hold {
                 futures::future::pending::<()>().await;
